@@ -1,9 +1,9 @@
 """Registry: which engine-V units and engine-K harness groups decide which property."""
 REGISTRY = {
     'C03': {
-        'v': ['c03_keyobjectset', 'c03_child_revoke', 'c01_roamode', 'c14_objectset'],
+        'v': ['c03_keyobjectset', 'c03_child_revoke', 'c03_child_remove', 'c03_ta', 'c01_roamode', 'c14_objectset'],
         'k': [],
-        'level_text': 'Per-operation contracts on the key object set: every insert/remove records the superseded object\'s revocation and never drops one (unbounded, all inputs, loop invariants); a manifest/CRL re-issue keeps every unexpired revocation and the CRL is built from exactly that list (unit c14_objectset). "Gone from the repository after the next synchronisation" needs histories and is not decided.',
+        'level_text': 'Per-operation contracts on the key object set: every insert/remove records the superseded object\'s revocation and never drops one (unbounded, all inputs, loop invariants); a manifest/CRL re-issue keeps every unexpired revocation and the CRL is built from exactly that list (unit c14_objectset); removing or suspending a child puts every certificate issued to one of its keys, in every class, on the removed / suspended list of that class (unit c03_child_remove); the trust anchor revokes the certificate it replaces or revokes (unit c03_ta). "Gone from the repository after the next synchronisation" needs histories and is not decided.',
         'level_note': 'Opaque external types (rpki-rs, HashMap key model), Revocation identity = (serial, expires); callers above the contracted kernels are unverified (DESIGN A8).',
         'design_ref': 'DESIGN.md section 10.4 (as built) and section 5 / C03',
         'not_covered': [],
@@ -75,12 +75,12 @@ REGISTRY['C13'] = {
     'not_covered': ['cas.rs::index_get outside its filter closure (ca_handles / collect glue; the closure that decides which CAs are listed is verified)', 'root.rs::ui / assets (static files from a build artefact)', 'metrics.rs and auth.rs (login) handlers', 'HTTP status mapping; effects of refused calls beyond the facade not being called'],
 }
 REGISTRY['C14'] = {
-    'v': ['c14_objectset', 'c04_objects'],
+    'v': ['c14_objectset', 'c04_objects', 'c14_renewal', 'c14_aspa_renewal'],
     'k': [],
-    'level_text': 'Per-key contracts on the real text: a re-issue raises the revision number by exactly one, builds CRL and manifest from the same revision (numbers and validity windows agree), leaves the payload set unchanged, builds the CRL from the key\'s own (pruned) revocations and the manifest from CRL + exactly the published objects; a class is due iff any of its key sets (current, staging, old) is due and a re-issue covers all of them. Whether the maintenance tasks run and whether windows contain the present (wall clock) is not decided.',
+    'level_text': 'Renewal: Roas::create_renewal re-issues every simple and aggregated ROA that expires before the renewal threshold (all when forced) with the same authorisations, AspaObjects::create_renewal every due ASPA object for its own definition, and neither touches anything else. Per-key contracts on the real text: a re-issue raises the revision number by exactly one, builds CRL and manifest from the same revision (numbers and validity windows agree), leaves the payload set unchanged, builds the CRL from the key\'s own (pruned) revocations and the manifest from CRL + exactly the published objects; a class is due iff any of its key sets (current, staging, old) is due and a re-issue covers all of them. Whether the maintenance tasks run and whether windows contain the present (wall clock) is not decided.',
     'level_note': 'PublishedCrl::build, ManifestBuilder::build_new_mft / with_objects, Revocations::remove_expired are assumed externals (rpki-rs builders, signer); time is an input.',
     'design_ref': 'DESIGN.md section 10.4 (as built) and section 5 / C14',
-    'not_covered': ['CaObjects::re_issue outside one iteration of its loop (the values_mut() iteration itself; the per-class decision and the sticky `required` flag are verified on the lifted loop body)', 'renewal of ROAs/ASPAs/BGPsec certificates (create_renewal)', 'validity windows contain the present'],
+    'not_covered': ['CaObjects::re_issue outside one iteration of its loop (the values_mut() iteration itself; the per-class decision and the sticky `required` flag are verified on the lifted loop body)', 'renewal of BGPsec certificates (create_renewal; ROA and ASPA renewal are covered: every due object, only those, same authorisations / definition)', 'validity windows contain the present'],
 }
 REGISTRY['C15'] = {
     'v': ['c15_taproxy'],
